@@ -192,6 +192,10 @@ def run(R):
                 e = ('rep', elem, lo, hi)
                 add_group('sugar-vs-constructor', [f'start = {render(e, "sugar")}\nX = "a" | "ba"\n',
                                                    f'start = {render(e, "ctor")}\nX = "a" | "ba"\n'], texts=runs)
+    # constructor forms with NO operand (the empty sequence), alone and inside other forms
+    for a, b in (('[]', 'Seq()'), ('["a", [], "b"]', 'Seq("a", Seq(), "b")'), ('"a" >> []', 'Right("a", Seq())'), ('("x" | [])', 'Choice("x", Seq())'),
+                 ('[[], "a"]?', 'Opt(Seq(Seq(), "a"))'), ('X >> [] << X', 'Left(Right(X, Seq()), X)')):
+        add_group('sugar-vs-constructor', [f'start = {a}\nX = "a" | "ba"\n', f'start = {b}\nX = "a" | "ba"\n'], texts=['', 'a', 'ab', 'x', 'aa', 'baa'], structural=False)
     # bounds that are NAMES (a let variable, a template parameter): both spellings, every form
     for lo, hi in (('n', 'n'), (None, 'n'), ('n', None), (1, 'n'), ('n', 3), (0, 'n'), ('n', 'm')):
         e = ('rep', ('lit', 'a'), lo, hi)
